@@ -373,7 +373,7 @@ fn do_import(path: &std::path::Path, via_lib: bool) -> ImportRes {
 
 fn fired_split(f: &BTreeMap<&'static str, u64>) -> (u64, u64, u64, u64) {
     let g = |k: &str| f.get(k).copied().unwrap_or(0);
-    let hard_w = g("write_err") + g("write_err_sticky") + g("enospc") + g("open_write_err") + g("write_after_sticky");
+    let hard_w = g("write_err") + g("write_err_sticky") + g("enospc") + g("open_write_err") + g("write_after_sticky") + g("fsync_err");
     let soft_w = g("short_write") + g("write_eintr") + g("enospc_short") + g("open_eintr");
     let hard_r = g("read_err") + g("read_err_sticky") + g("open_read_err");
     let soft_r = g("short_read") + g("read_eintr") + g("open_eintr");
@@ -961,6 +961,9 @@ fn draw_write_plan(p: &mut Prng, nwrites: u64) -> Plan {
     if en_open {
         plan.open.insert(0, *p.pick(OPEN_W_ERRNOS));
     }
+    if p.chance(1, 10) {
+        plan.sync.insert(p.below(2), *p.pick(&[libc::EIO, libc::ENOSPC]));
+    }
     plan
 }
 
@@ -1128,6 +1131,9 @@ fn random_text(p: &mut Prng) -> Vec<u8> {
     s.into_bytes()
 }
 
+/// number of fsync/fdatasync calls the last reference export issued
+static NSYNC_OF_LAST_REFERENCE: std::sync::atomic::AtomicU64 = std::sync::atomic::AtomicU64::new(0);
+
 fn reference_export(prog: &ProgSpec, dedup: bool, keys: Keys) -> Option<(Vec<u8>, u64, u64)> {
     // fault-free export to learn the size of the search space (write count, bytes)
     let w = World { program: Some(prog.clone()), dedup, keys, export_plan: Plan::default(), corruptions: vec![], import_plan: Plan::default(), via_lib: false, s5: None, raw_text: None, prior: vec![], earlier: vec![] };
@@ -1140,6 +1146,7 @@ fn reference_export(prog: &ProgSpec, dedup: bool, keys: Keys) -> Option<(Vec<u8>
         match do_export(&c, "", &path, false) {
             ExportRes::Ok => {
                 let (_, nw, _) = seams::syscall_counts();
+                NSYNC_OF_LAST_REFERENCE.store(seams::sync_count(), std::sync::atomic::Ordering::Relaxed);
                 let b = seams::disk_get("/SIMDISK/probe.txt")?;
                 let n = b.len() as u64;
                 Some((b, nw, n))
@@ -1557,6 +1564,7 @@ fn run_sweep(base: &World, acc: &mut Acc) {
         return;
     }
     *acc.counters.entry("sweep_subjects".into()).or_insert(0) += 1;
+    let nsync = NSYNC_OF_LAST_REFERENCE.load(std::sync::atomic::Ordering::Relaxed);
     let keys = base.keys;
     let mut batch: Vec<World> = Vec::new();
     let mut go = |w: World, acc: &mut Acc| {
@@ -1595,6 +1603,14 @@ fn run_sweep(base: &World, acc: &mut Acc) {
         let mut w = base.clone();
         w.export_plan.open.insert(0, e);
         go(w, acc);
+    }
+    // every fsync/fdatasync the exporter issues (none today) x {EIO, ENOSPC}
+    for k in 0..nsync {
+        for e in [libc::EIO, libc::ENOSPC] {
+            let mut w = base.clone();
+            w.export_plan.sync.insert(k, e);
+            go(w, acc);
+        }
     }
     // every read index x {short(1), short(7), EINTR, EIO}
     let nreads = (bytes.len() / 8192 + 3) as u64;
